@@ -67,10 +67,11 @@ RELATION = (
     "ancestry of F's tip; the final block only moves forward. Every 5 steps: for every ALT block F retains that is on "
     "its active chain or descends from the final block, and every VBK/BTC block F retains: equal height, status word, "
     "payload ids, containing endorsements, endorsedBy, VBK refcount, BTC refs, equal VBK/BTC best tips. Not compared: "
-    "tips_ sets, blocks F has deallocated, outdated blocks, the finalized mark, and the memory-only block-of-proof "
-    "back pointers (a finalizing instance holds fewer: those into deallocated containing blocks are dropped by the "
-    "repair of known finding dangling-endorsement-backpointers, and before that repair they dangle - the separate "
-    "pointer-comparison oracle `dangling` reports them under that key).")
+    "tips_ sets (known finding tips-dirty-fork-erased), blocks F has deallocated, outdated blocks, the finalized mark, "
+    "and the memory-only block-of-proof back pointers: they are not consensus state (their effect is covered by the "
+    "compared cmp/payout answers), and in a finalizing instance the ones into deallocated containing blocks dangle "
+    "(known finding dangling-endorsement-backpointers) and must not be read - the separate pointer-comparison oracle "
+    "`dangling` reports them under that key.")
 
 
 def build_script(histories, mode, save_every, corr_every=0):
